@@ -24,6 +24,13 @@ CMPOPS = ["<", ">", "==", "!=", "<=", ">=", "in", "not in", "is", "is not"]
 UNDEF = ["undef0", "undef1", "nope"]
 KNOWN_LITS = ["0", "1", "(-1)", "(2)", "1.5", "'a'", "''", "b'x'", "None", "True", "()", "(1, 2)", "(3, 'a')", "(3, None)", "[]", "[1]", "{}", "{'a': 1}", "{1, 2}",
               "set()", "frozenset()", "...", "sys.version_info", "sys.version_info", "sys.platform", "sys.maxsize", "os.sep", "len", "int", "(3, 8)", "'3'"]
+HOSTILE_HEADER = (
+    "HK1 = 10 ** 400\nHK2 = 2 ** 70\nHR1 = range(10 ** 20)\nHS1 = '\\ud800'\nHS2 = 'a\\x00b'\nHS3 = '\u00b2\u0663'\nHF1 = float('inf')\nHF2 = float('nan')\n"
+)
+HOSTILE_HUGE = "HK3 = 10 ** 5000\n"
+HOSTILE_DEEP = "HT1 = ()\nfor _hi in range(1500):\n    HT1 = (HT1,)\n"
+HOSTILE_NAMES = ["HK1", "HK1", "HK2", "HR1", "HS1", "HS2", "HS3", "HF1", "HF2", "(-1)", "(2 ** 70)", "(10 ** 400)", "(-HK1)", "HK1", "HK2"]
+FORMAT_SPECS = ["", ":>10", ":d", ":.2f", ":{w}", ":x", ":%Y", ":c", ":c", ":e", ":.2%", ":n", ":,d", ":#x", ":08.3f", ":>{w}.{p}", ":s", ":10.3s", ":g", ":b", ":_d", ":+e", ":^{w}c"]
 BIG_ALIASES = ["Literal[0, 1, 2, 3, 4, 5, 6, 7, 8, 9]", "Literal['a', 'b', 'c', 'd', 'e', 'f', 'g', 'h', 'i', 'j', 'k']",
                "Union[Literal[0, 1, 2, 3, 4, 5, 6, 7, 8, 9, 10], None]", "Optional[Literal[0, 1, 2, 3, 4, 5, 6, 7, 8, 9]]",
                "Union[Literal[0, 1, 2, 3, 4, 5, 6, 7, 8], str, bytes]", "Literal[0, 1, 2, 3, 4, 5, 6, 7, 8]",
@@ -58,6 +65,9 @@ class ProgGen:
         self.future = rng.random() < 0.45
         self.hostile = hostile
         self.nonascii = rng.random() < 0.2
+        self.huge = rng.random() < 0.15          # 10 ** 5000 among the constants (its repr() raises: class hugeIntRepr)
+        self.deep = rng.random() < 0.1           # a 1500-fold nested tuple (its repr() / hash() recurse)
+        self.hostile_names = HOSTILE_NAMES + (["HK3", "HK3"] if self.huge else []) + (["HT1"] if self.deep else [])
         self.funcs = {}      # name -> (npos, kwnames)
         self.classes = []
         self.consts = []
@@ -231,7 +241,24 @@ class ProgGen:
         pyanalyze evaluates many of these itself, so an operator that raises must be caught by it."""
         self.f("known_value_op")
         a, b = self.ch(KNOWN_LITS + self.consts[:2]), self.ch(KNOWN_LITS + self.consts[:2])
-        k = self.ch(["cmp", "cmp", "cmp", "in", "bin", "un", "sub", "slice", "chain", "call"])
+        if self.p(0.4):
+            a = self.ch(self.hostile_names)
+        if self.p(0.2):
+            b = self.ch(self.hostile_names)
+        k = self.ch(["cmp", "cmp", "cmp", "in", "bin", "un", "sub", "slice", "chain", "call", "pct", "pct", "fmt", "fmt", "bool", "iter", "unpack"])
+        if k == "pct":
+            self.f("percent_format")
+            return "(%r %% %s)" % (self.ch(["%c", "%e", "%f", "%d", "%x", "%.2f", "%5c", "%s", "%r", "%a", "%i", "%g", "%o", "%*d"]), self.ch([a, "(%s,)" % a, "(%s, %s)" % (a, b)]))
+        if k == "fmt":
+            self.f("str_format")
+            return "%r.format(%s)" % (self.ch(["{:c}", "{:e}", "{:.2f}", "{:.2%}", "{:d}", "{:x}", "{:n}", "{0:c} {1:e}", "{!r:>5}", "{:{}}", "{\u00b2}", "{0\u0663}", "{:,d}", "{a:c}"]),
+                                       self.ch([a, "%s, %s" % (a, b), "a=%s" % a]))
+        if k == "bool":
+            return "(%s if %s else %s)" % (b, a, self.ch(["not " + a, "bool(%s)" % a, a + " and " + b]))
+        if k == "iter":
+            return self.ch(["[_q for _q in %s]", "list(%s)", "sorted(%s)", "len(%s)", "sum(%s)", "(*%s,)", "max(%s)", "tuple(%s)", "set(%s)", "dict.fromkeys(%s)", "enumerate(%s)"]) % a
+        if k == "unpack":
+            return self.ch(["(lambda _p, *_q: _p)(*%s)", "[*%s, *%s]" % ("%s", b), "{**{%s: %s}}" % ("%s", b)]) % a
         if k == "cmp":
             return "(%s %s %s)" % (a, self.ch(["<", "<=", ">", ">=", "==", "!="]), b)
         if k == "chain":
@@ -283,8 +310,13 @@ class ProgGen:
             e = self.expr(sc, d - 1) if d > 0 else self.name(sc)
             if any(c in e for c in "'\"\\\n#") or e.strip().startswith("{"):
                 e = self.name(sc)
-            conv = self.ch(["", "", "!r", "!s", "!a"])
-            spec = self.ch(["", "", ":>10", ":d", ":.2f", ":{w}", ":x", ":%Y"])
+            if self.p(0.45):
+                self.f("fstring_known_operand")
+                e = self.ch([x for x in KNOWN_LITS if "{" not in x] + self.hostile_names * 2)
+                if e[0] == "1" or e.isdigit():
+                    e = "(%s)" % e
+            conv = self.ch(["", "", "", "!r", "!s", "!a"])
+            spec = self.ch(FORMAT_SPECS)
             parts.append(self.ch(["", "t ", "{{}} "]) + "{" + e + conv + spec + "}")
         return "f'" + "".join(parts) + "'"
 
@@ -1053,9 +1085,11 @@ class ProgGen:
         """A class whose instances misbehave when pyanalyze inspects them; one module-level instance."""
         self.f("hostile_object")
         n = self.fresh("H")
-        du = self.ch(["__getattr__", "__bool__", "__eq__", "__hash__", "__len__", "__iter__", "__getitem__", "__repr__", "__str__", "prop", "__contains__", "__class__"])
-        exc = self.ch(["ValueError", "RuntimeError", "KeyError", "TypeError"])
-        sig = {"__getattr__": "(self, n)", "__eq__": "(self, o)", "__getitem__": "(self, k)", "__contains__": "(self, o)"}.get(du, "(self)")
+        du = self.ch(["__getattr__", "__bool__", "__eq__", "__hash__", "__len__", "__iter__", "__getitem__", "__repr__", "__str__", "prop", "__contains__", "__class__",
+                      "__format__", "__format__", "__index__", "__int__", "__float__", "__lt__", "__add__", "__neg__", "__call__"])
+        exc = self.ch(["ValueError", "RuntimeError", "KeyError", "TypeError", "OverflowError", "ZeroDivisionError", "LookupError", "_HostileError"])
+        sig = {"__getattr__": "(self, n)", "__eq__": "(self, o)", "__getitem__": "(self, k)", "__contains__": "(self, o)", "__format__": "(self, spec)",
+               "__lt__": "(self, o)", "__add__": "(self, o)", "__call__": "(self, *a)"}.get(du, "(self)")
         if du == "prop":
             body = ["@property", "def prop(self):", "    raise %s('h')" % exc]
         elif du == "__class__":
@@ -1064,8 +1098,9 @@ class ProgGen:
             body = ["def %s%s:" % (du, sig), "    raise %s('h')" % exc]
         inst = self.fresh("H_inst")
         self.consts.append(inst)
+        self.hostile_names = self.hostile_names + [inst, inst]
         self.classes.append(n)
-        return ["class %s:" % n] + self.ind(body) + ["%s = %s()" % (inst, n)]
+        return ["class _HostileError(Exception):", "    pass", "class %s:" % n] + self.ind(body) + ["%s = %s()" % (inst, n)]
 
     def module(self):
         src = self._module()
@@ -1082,6 +1117,7 @@ class ProgGen:
             self.f("future_annotations")
         out.append(HEADER.rstrip("\n"))
         out += ["def _deco(f):", "    return f", "def _deco_args(*a, **k):", "    return lambda f: f"]
+        out += (HOSTILE_HEADER + (HOSTILE_HUGE if self.huge else "") + (HOSTILE_DEEP if self.deep else "")).rstrip("\n").split("\n")
         n_items = self.r.randint(3, 9)
         if self.p(0.3):
             out += self.toplevel_typing(force="bigunion")
